@@ -83,7 +83,7 @@ def parse_verdict(v):
     return t[1], d
 
 
-def ring_start_on_multipass_node(geom):
+def ring_start_on_multipass_node(geom, any_vertex=False):
     """Exact structural feature: some polygon ring has its FIRST vertex at a point through which ANOTHER polygon ring of the geometry
     passes at least twice (that ring touches itself there).  PolygonTopologyAnalyzer::isRingNested(test, target) decides by the start
     vertex of the test ring; when it lies on the target ring it looks at ONE pass of the target ring through that point (the first
@@ -128,7 +128,7 @@ def ring_start_on_multipass_node(geom):
         return n
     for i, r in enumerate(rings):
         for j, t in enumerate(rings):
-            if i != j and passes(t, r[0]) >= 2:
+            if i != j and (any(passes(t, v) >= 2 for v in r[:-1]) if any_vertex else passes(t, r[0]) >= 2):
                 return True
     return False
 
@@ -158,6 +158,10 @@ def signature(verdict, geom=None):
         return {"class": key, "impl": d.get("impl", "?"), "ref": d.get("ref", "?")}
     if key == "invariance":
         what = d.get("_rest", "").split(":")[0]
+        # the variants of the invariance oracle rotate / reverse every ring: the start-vertex dependence of isIncidentSegmentInRing shows as soon as
+        # ANY vertex of a ring lies on a node through which another ring passes twice (some rotation starts there)
+        if st and geom is not None and not extra and ring_start_on_multipass_node(geom, any_vertex=True):
+            extra = {"otherRingVertexOnMultiPassNode": True}
         return dict({"class": "invariance", "what": what, "selfTouchingRing": st}, **extra)
     return {"class": key}
 
